@@ -706,6 +706,9 @@ func fmtSprintf(fr *frame, a []value) value {
 			}
 		}
 	}
+	if f, ok := a[0].(string); ok && anySymstrArg(a[1]) {
+		return fr.i.symSprintf(f, a[1].([]value))
+	}
 	args, sym := sprintfArgs(fr.i, a[1])
 	f, ok := a[0].(string)
 	if !ok {
@@ -719,6 +722,9 @@ func fmtSprintf(fr *frame, a []value) value {
 }
 
 func fmtSprint(fr *frame, a []value) value {
+	if anySymstrArg(a[0]) {
+		return fr.i.symSprint(a[0].([]value), false)
+	}
 	args, sym := sprintfArgs(fr.i, a[0])
 	s := fmt.Sprint(args...)
 	if sym && !strings.Contains(s, symMarker) {
